@@ -203,13 +203,27 @@ def make_jobs(ctx: core.Ctx, n_res: int, n_big: int, n_cmp: int, n_tr: int) -> l
         nt = int(rng.integers(1200, 2001)) if big else int(rng.integers(2, 500))
         kind = "single" if (k % 3 != 2) else "ideal"
         pi = float(rng.uniform(1500.0, 9000.0))
-        jobs.append({"stage": "reservoir", "kind": kind, "nx": int(rng.integers(3, 61)), "nt": nt,
-                     "t_end": float(rng.uniform(0.3, 11.0)), "grid": "sqrt" if k % 2 == 0 else "random",
-                     "grid_seed": int(rng.integers(1, 2**31 - 1)), "pf": float(rng.uniform(50.0, 0.8 * pi)), "pi": pi,
-                     "plot_seed": int(rng.integers(1, 2**31 - 1))})
+        job = {"stage": "reservoir", "kind": kind, "nx": int(rng.integers(3, 61)), "nt": nt,
+               "t_end": float(rng.uniform(0.3, 11.0)), "grid": "sqrt" if k % 2 == 0 else "random",
+               "grid_seed": int(rng.integers(1, 2**31 - 1)), "pf": float(rng.uniform(50.0, 0.8 * pi)), "pi": pi,
+               "plot_seed": int(rng.integers(1, 2**31 - 1))}
+        # simulations whose recovery is not strictly increasing and time grids that do not start at zero are simulations too
+        v = (k // 3) % 6
+        if v == 1:
+            job["grid"] = "log"            # first time > 0 (decades of early time)
+        elif v == 2:
+            job["grid"] = "restart"        # a restart: t0 + ...
+        elif v == 3 and kind == "single":
+            job["schedule"] = "chokeback"  # frac-face pressure climbs back: negative rates
+        elif v == 4:
+            job["pf"] = pi                 # no drawdown: the rate is exactly zero
+        elif v == 5:
+            job["t_end"] = 1000.0 if kind == "single" else 100.0   # deep depletion: the rate is round-off, either sign
+        jobs.append(job)
     for k in range(n_cmp):
         jobs.append({"stage": "cmp", "seed": int(rng.integers(1, 2**31 - 1)), "n": int(rng.integers(20, 61)),
                      "filter": k % 2 == 0, "window": (None, 1, 5, 9)[(k // 2) % 4], "M": float(rng.uniform(50.0, 3000.0)),
+                     "extra_columns": k % 3 == 1,
                      "tau": float(rng.uniform(30.0, 900.0)), "p_initial": P_INITIAL})
     for k in range(n_tr):
         jobs.append({"stage": "transform", "seed": int(rng.integers(1, 2**31 - 1)), "n": 400})
@@ -229,7 +243,7 @@ def events_of(job: dict) -> list[dict]:
     evs = []
     strides = sorted({lo, int(math.exp(rng.uniform(math.log(lo), math.log(nt + 3)))), int(rng.integers(lo, nt + 4))})
     for every in strides:
-        for rescale in (False, True):
+        for rescale in ((False,) if job["pf"] == job["pi"] else (False, True)):   # no drawdown: "rescaled" is 0/0, not a claim
             e = drv.project_pseudo(res, every, rescale, own_axes=(every % 5 == 0))
             evs.append(e | {"call": {"every": every, "rescale": rescale}})
     if job["kind"] == "single" and job["plot_seed"] % 2 == 0:
